@@ -23,6 +23,12 @@ func (fc *FnCtx) assertInvs(st *State, n int, kind string, pos token.Pos) {
 	}
 }
 
+// loopInit: `at loop N init` ghost statements, then the invariants on entry.
+func (fc *FnCtx) loopInit(st *State, n int, pos token.Pos) {
+	fc.runLoopAnchors(st, "loopinit", n, pos)
+	fc.assertInvs(st, n, "inv-init", pos)
+}
+
 func (fc *FnCtx) assumeInvs(st *State, n int, pos token.Pos) {
 	for _, inv := range fc.contract.Invariants[n] {
 		fc.assume(st, fc.contractExprAt(st, inv, pos))
@@ -53,7 +59,7 @@ func (fc *FnCtx) forStmt(st *State, s *ast.ForStmt, label string) {
 	fc.loopOrd++
 	n := fc.loopOrd
 	pos := s.Body.Pos()
-	fc.assertInvs(st, n, "inv-init", pos)
+	fc.loopInit(st, n, pos)
 	mod := fc.dryRun(st, label, func(d *State) {
 		ctx := fc.loops[len(fc.loops)-1]
 		if s.Cond != nil {
@@ -132,7 +138,7 @@ func (fc *FnCtx) rangeStmt(st *State, s *ast.RangeStmt, label string) {
 		if keyObj != nil {
 			st.vars[keyObj] = intLit(0)
 		}
-		fc.assertInvs(st, n, "inv-init", pos)
+		fc.loopInit(st, n, pos)
 		// bindIter sets the per-iteration variables in body state b for index idx; returns the index advance
 		bindIter := func(b *State, idx Term) Term {
 			var width Term = intLit(1)
@@ -222,7 +228,7 @@ func (fc *FnCtx) rangeStmt(st *State, s *ast.RangeStmt, label string) {
 		visKey := rangeVisKey{n}
 		emptySet := Term{S: fmt.Sprintf("((as const %s) false)", arraySort(ks, SBool)), Sort: arraySort(ks, SBool)}
 		st.vars[visKey] = emptySet
-		fc.assertInvs(st, n, "inv-init", pos)
+		fc.loopInit(st, n, pos)
 		bindIter := func(b *State, vis Term) Term {
 			dom := fc.get(b, dk, arraySort(SInt, arraySort(ks, SBool)), nil)
 			k := fc.freshSort("rk", ks)
